@@ -323,11 +323,10 @@ Definition exec_op (c : conn) (o : op) : conn * list ev4 :=
     end
   | OPing => (c, [])
   | OGoAway id code =>
-    (* handleGoAway returns a connection error for a non-zero even id and for an id above the
-       previous GOAWAY's, but the reader only stores it in errClose and keeps reading: the
-       frame is ignored and the connection stays up *)
-    if (0 <? id) && Z.even id then (c, [])
-    else if k_goaway c && (k_prev c <? id) then (c, [])
+    (* a non-zero even id, or an id above the previous GOAWAY's, is a connection error: the
+       reader returns and the transport is closed with that error *)
+    if (0 <? id) && Z.even id then close_conn c
+    else if k_goaway c && (k_prev c <? id) then close_conn c
     else
       let upper := if k_prev c =? 0 then 4294967295 else k_prev c in
       let c1 := mkconn (k_streams c) (k_next c) (if k_goaway c then k_mode c else 1) true id (k_now c) in
